@@ -78,8 +78,14 @@ var (
 	verifOnce     sync.Once
 )
 
-// VerifNewEtcd creates a fake for the given (single) endpoint and makes NewClient return it.
-func VerifNewEtcd(host string) *VerifEtcd {
+func verifEpsKey(endpoints []string) string {
+	l := append([]string{}, endpoints...)
+	sort.Strings(l)
+	return strings.Join(l, ",")
+}
+
+// VerifNewEtcd creates a fake for the given endpoints (in any order) and makes NewClient return it.
+func VerifNewEtcd(hosts ...string) *VerifEtcd {
 	verifOnce.Do(func() {
 		conn, err := grpc.NewClient("passthrough:///verif-c13", grpc.WithTransportCredentials(insecure.NewCredentials()))
 		if err != nil {
@@ -89,29 +95,34 @@ func VerifNewEtcd(host string) *VerifEtcd {
 		NewClient = func(endpoints []string) (EtcdClient, error) {
 			verifFakeLock.Lock()
 			defer verifFakeLock.Unlock()
-			if len(endpoints) == 1 {
-				if e, ok := verifFakes[endpoints[0]]; ok {
-					return e, nil
-				}
+			if e, ok := verifFakes[verifEpsKey(endpoints)]; ok {
+				return e, nil
 			}
 			return nil, fmt.Errorf("verif: no fake etcd for %v", endpoints)
 		}
 	})
 	e := &VerifEtcd{rev: 1, ctx: context.Background()}
 	verifFakeLock.Lock()
-	verifFakes[host] = e
+	verifFakes[verifEpsKey(hosts)] = e
 	verifFakeLock.Unlock()
 	return e
 }
 
 // VerifDropEtcd forgets the fake and removes the cluster from the global registry.
-func VerifDropEtcd(host string) {
+func VerifDropEtcd(hosts ...string) {
 	verifFakeLock.Lock()
-	delete(verifFakes, host)
+	delete(verifFakes, verifEpsKey(hosts))
 	verifFakeLock.Unlock()
 	registry.lock.Lock()
-	delete(registry.clusters, getClusterKey([]string{host}))
+	delete(registry.clusters, verifEpsKey(hosts))
 	registry.lock.Unlock()
+}
+
+// VSetBase sets the revision of the (still empty) store.
+func (e *VerifEtcd) VSetBase(rev int64) {
+	e.mu.Lock()
+	e.rev = rev
+	e.mu.Unlock()
 }
 
 func verifTag(key, end string) string {
@@ -251,7 +262,7 @@ func (e *VerifEtcd) pump(st *verifStream) {
 	if st.next < e.compact {
 		e.logf(VerifLogEntry{W: st.tag, T: "compacted", Rev: e.compact})
 		st.ch <- clientv3.WatchResponse{Header: etcdserverpb.ResponseHeader{Revision: e.rev},
-			CompactRevision: e.compact, Canceled: true}
+			CompactRevision: e.compact, Canceled: e.compact%2 == 0} // etcd sets Canceled; the code also accepts the bare error
 		close(st.ch)
 		st.closed = true
 		return
@@ -490,8 +501,8 @@ func (e *VerifEtcd) busy() bool {
 }
 
 // VerifBind tells the fake which cluster it serves (for busy()).
-func (e *VerifEtcd) VerifBind(host string) {
-	if c, ok := GetRegistry().getCluster([]string{host}); ok {
+func (e *VerifEtcd) VerifBind(hosts ...string) {
+	if c, ok := GetRegistry().getCluster(append([]string{}, hosts...)); ok {
 		e.cptr = fmt.Sprintf("%p", c)
 	}
 }
@@ -517,8 +528,8 @@ func VerifTag(key string, exact bool) string {
 
 // VerifClusterReload is what the connection-state listener installed by cluster.newClient
 // does when the connection comes back: c.reload(cli).
-func VerifClusterReload(host string) bool {
-	c, ok := GetRegistry().getCluster([]string{host})
+func VerifClusterReload(hosts ...string) bool {
+	c, ok := GetRegistry().getCluster(append([]string{}, hosts...))
 	if !ok {
 		return false
 	}
@@ -531,9 +542,9 @@ func VerifClusterReload(host string) bool {
 }
 
 // VerifClusterState is a copy of the cluster's watchers: tag -> (values sorted, number of listeners).
-func VerifClusterState(host string) map[string]any {
+func VerifClusterState(hosts ...string) map[string]any {
 	res := map[string]any{}
-	c, ok := GetRegistry().getCluster([]string{host})
+	c, ok := GetRegistry().getCluster(append([]string{}, hosts...))
 	if !ok {
 		return res
 	}
